@@ -279,6 +279,10 @@ impl ConnectingPerAddr {
         None
     }
 
+    fn contains_conn_id(&self, conn_id: ConnectionId) -> bool {
+        self.slots.iter().flatten().any(|c| c.conn_id == conn_id)
+    }
+
     fn pop_by_token(&mut self, token: ConnectToken) -> Option<Connecting> {
         for slot in self.slots.iter_mut() {
             if let Some(c) = slot {
@@ -589,7 +593,14 @@ impl<T: Transport, E: UtpEnvironment> Dispatcher<T, E> {
         }
 
         let recv_key = (syn.remote, syn.header.connection_id + 1);
-        if self.streams.contains_key(&recv_key) {
+        // A connect of ours that is still waiting for its SYN-ACK owns its receive id too: the
+        // SYN-ACK would be routed to the stream accepted here, and the connect, once it does
+        // complete, would replace that stream's entry in the table.
+        let clashes_with_connecting = self
+            .connecting
+            .get(&syn.remote)
+            .is_some_and(|c| c.contains_conn_id(recv_key.1));
+        if self.streams.contains_key(&recv_key) || clashes_with_connecting {
             debug!(?recv_key, "SYN clashes with an existing stream, ignoring");
             return MatchSynWithAccept::SynInvalid(accept);
         }
